@@ -6,7 +6,7 @@ from vlib import core, npcgen, twoconf
 
 PROP = 'C05'
 MODEL_MODULES = ['TenpyModel.Util.J', 'TenpyModel.Core.Codec', 'TenpyModel.C05.Fact']
-PROPS_MODULES = ['TenpyModel.C05.PropsCharge', 'TenpyModel.C05.PropsAssemble', 'TenpyModel.C05.PropsAlgebra']
+PROPS_MODULES = ['TenpyModel.C05.PropsCharge', 'TenpyModel.C05.PropsAssemble', 'TenpyModel.C05.PropsAlgebra', 'TenpyModel.C05.Props2']
 LEVEL = 'proof'
 BUDGET = {'quick': 170, 'thorough': 1500}
 RULE = ('rank-2 npc Arrays with 0-3 charges (mod 1..5): built directly from two legs (blocked / sorted with duplicate '
